@@ -34,6 +34,11 @@ type schedGen struct {
 	tail      int
 	stuck     int
 	tags      map[string]int
+	np        int  // OLLAMA_NUM_PARALLEL (0 = automatic)
+	gpumem    int  // 1: GPU 1 has no room for a model
+	closeMs   int  // fake ms a Close takes
+	blockPing bool // scripted blocking Pings (`ping r 2` / `pingdone`); VERIF_SCHED_NOBLOCKPING=1 switches them off
+	routed    int  // share (of 8) of requests that go through Server.scheduleRunner
 }
 
 func newSchedGen(rng *zzverif.Rng) *schedGen {
@@ -71,8 +76,65 @@ func newSchedGen(rng *zzverif.Rng) *schedGen {
 			g.cfg.ngpus = 1
 		}
 	}
+	g.np = []int{1, 1, 1, 1, 1, 2, 2, 2, 0, 0}[rng.Intn(10)]
+	if g.cfg.cpu == 0 && g.cfg.ngpus >= 2 && rng.Chance(1, 2) {
+		g.gpumem = 1
+	}
+	if rng.Chance(1, 3) {
+		g.closeMs = 2
+	}
+	g.blockPing = os.Getenv("VERIF_SCHED_NOBLOCKPING") == ""
+	g.routed = []int{0, 0, 2, 2, 4, 8}[rng.Intn(6)]
+	var open []schedEv
 	// directed openings (the random walk reaches these states too rarely); the walk continues after them
-	switch rng.Intn(12) {
+	switch rng.Intn(14) {
+	case 2: // a fixed parallel factor, a model that does not fit next to the one still loading: it is put back on the queue
+		// and must still be started with ITS options (NumCtx x factor), and then be reused by the same request again
+		g.cfg.cpu, g.cfg.ngpus, g.gpumem, g.np = 0, 2, 1, []int{2, 2, 4, 0}[rng.Intn(4)]
+		if g.cfg.maxRunners == 1 {
+			g.cfg.maxRunners = 0
+		}
+		g.nModels = max(g.nModels, 2)
+		g.nReqs = max(g.nReqs, 4)
+		k := rng.Intn(2)
+		open = []schedEv{{kind: "submit", a: 0, sess: "L"}, {kind: "submit", a: 1, b: k, sess: "L"}, {kind: "loaddone", a: 0, b: 1},
+			{kind: "advance", a: 100}, {kind: "loaddone", a: 1, b: 1}, {kind: "submit", a: 1, b: k, sess: g.sess()}}
+		g.tags["open_requeued_options"]++
+	case 3: // a runner that takes time to stop, unloaded by its keep-alive / completion (not by the pending loop), and a
+		// request arriving while it is still shutting down
+		g.closeMs = 2
+		g.nReqs = max(g.nReqs, 3)
+		if rng.Chance(2, 3) {
+			g.cfg.maxRunners = 1
+		}
+		other := 0
+		if g.nModels > 1 && rng.Chance(1, 2) {
+			other = 1
+		}
+		if rng.Chance(1, 2) {
+			open = []schedEv{{kind: "submit", a: 0, sess: "0"}, {kind: "loaddone", a: 0, b: 1}, {kind: "done", a: 0},
+				{kind: "submit", a: other, sess: g.sess()}}
+		} else {
+			open = []schedEv{{kind: "submit", a: 0, sess: "S"}, {kind: "loaddone", a: 0, b: 1}, {kind: "done", a: 0},
+				{kind: "advance", a: 50}, {kind: "submit", a: other, sess: g.sess()}}
+		}
+		g.tags["open_slow_close"]++
+	case 4, 5: // the requester goes away while the health check of the loaded runner is in flight
+		if !g.blockPing {
+			break
+		}
+		g.nReqs = max(g.nReqs, 4)
+		open = []schedEv{{kind: "submit", a: 0, sess: zzverif.Pick(rng, []string{"S", "L", "-"})}, {kind: "loaddone", a: 0, b: 1}}
+		if rng.Chance(1, 2) {
+			open = append(open, schedEv{kind: "done", a: 0})
+		}
+		sub := "submit"
+		if rng.Chance(1, 2) {
+			sub = "submitr"
+		}
+		open = append(open, schedEv{kind: "ping", a: 0, b: 2}, schedEv{kind: sub, a: 0, sess: g.sess()},
+			schedEv{kind: "done", a: 1}, schedEv{kind: "pingdone", a: 0, b: 1})
+		g.tags["open_cancel_during_ping"]++
 	case 0: // two slots, three models, one loaded runner idle and one busy: the victim must be the idle one
 		g.nModels, g.cfg.maxRunners = 3, 2
 		g.nReqs = max(g.nReqs, 4)
@@ -80,20 +142,31 @@ func newSchedGen(rng *zzverif.Rng) *schedGen {
 		for b = rng.Intn(3); b == a; b = rng.Intn(3) {
 		}
 		sa, sb := zzverif.Pick(rng, []string{"S", "L", "L"}), zzverif.Pick(rng, []string{"S", "L", "L"})
-		g.forced = []schedEv{{kind: "submit", a: a, sess: sa}, {kind: "loaddone", a: 0, b: 1},
+		open = []schedEv{{kind: "submit", a: a, sess: sa}, {kind: "loaddone", a: 0, b: 1},
 			{kind: "submit", a: b, sess: sb}, {kind: "loaddone", a: 1, b: 1}, {kind: "done", a: rng.Intn(2)}}
 		if rng.Chance(1, 3) {
-			g.forced = append(g.forced, schedEv{kind: "advance", a: 20})
+			open = append(open, schedEv{kind: "advance", a: 20})
 		}
-		g.forced = append(g.forced, schedEv{kind: "submit", a: 3 - a - b, sess: g.sess()})
+		open = append(open, schedEv{kind: "submit", a: 3 - a - b, sess: g.sess()})
 		g.tags["open_victim_choice"]++
 	case 1: // the F12 window: the keep-alive of the idle runner runs out exactly when (or just before/after) a request arrives
 		g.nReqs = max(g.nReqs, 3)
 		adv := []int{50, 50, 49, 51, 40}[rng.Intn(5)]
-		g.forced = []schedEv{{kind: "submit", a: 0, sess: "S"}, {kind: "loaddone", a: 0, b: 1}, {kind: "done", a: 0},
+		open = []schedEv{{kind: "submit", a: 0, sess: "S"}, {kind: "loaddone", a: 0, b: 1}, {kind: "done", a: 0},
 			{kind: "advance", a: adv}, {kind: "submit", a: 0, b: rng.Intn(2), sess: g.sess()}}
 		g.tags["open_expiry_window"]++
 	}
+	// the environment of the trace comes first
+	if g.np != 1 {
+		g.forced = append(g.forced, schedEv{kind: "parallel", a: g.np})
+	}
+	if g.gpumem != 0 {
+		g.forced = append(g.forced, schedEv{kind: "gpumem", a: g.gpumem})
+	}
+	if g.closeMs != 0 {
+		g.forced = append(g.forced, schedEv{kind: "closedelay", a: g.closeMs})
+	}
+	g.forced = append(g.forced, open...)
 	g.budget = 6 + 6*g.nReqs + rng.Intn(8) + len(g.forced)
 	g.wantDrain = rng.Chance(17, 20)
 	return g
@@ -120,7 +193,11 @@ func (g *schedGen) submitFor(r *schedRun, m int, sameOpts bool) schedEv {
 	} else if g.rng.Chance(1, 4) {
 		opts = 1
 	}
-	return schedEv{kind: "submit", a: m, b: opts, sess: g.sess()}
+	kind := "submit"
+	if g.rng.Intn(8) < g.routed {
+		kind = "submitr"
+	}
+	return schedEv{kind: kind, a: m, b: opts, sess: g.sess()}
 }
 
 func (g *schedGen) randomSubmit(r *schedRun) schedEv {
@@ -230,12 +307,40 @@ func (g *schedGen) mainEvent(r *schedRun) (schedEv, bool) {
 				add(3, "queued_then_loadfail", g.submitFor(r, m.model, true), schedEv{kind: "loaddone", a: m.id, b: 0})
 				add(2, "queued_then_loadok", g.submitFor(r, m.model, g.rng.Chance(2, 3)), schedEv{kind: "loaddone", a: m.id, b: 1})
 			}
+		case m.pinging:
+			// processPending sits in needsReload's Ping (refMu held): answer it, or let the requester go away first
+			add(10, "pingdone", schedEv{kind: "pingdone", a: m.id, b: 1})
+			add(3, "pingdone_fail", schedEv{kind: "pingdone", a: m.id, b: 0})
+			for _, q := range r.reqs {
+				if !q.done && q.replies() == 0 && q.model == m.model {
+					add(8, "cancel_during_ping", schedEv{kind: "done", a: q.id}, schedEv{kind: "pingdone", a: m.id, b: 1})
+					add(2, "cancel_during_ping_fail", schedEv{kind: "done", a: q.id}, schedEv{kind: "pingdone", a: m.id, b: 0})
+					break
+				}
+			}
+		case m.closing:
+			// the runner process is still shutting down: requests that arrive now must wait for it
+			if left > 0 {
+				add(10, "submit_during_close", g.submitFor(r, m.model, true))
+				if g.nModels > 1 {
+					add(10, "submit_other_during_close", g.submitFor(r, (m.model+1+g.rng.Intn(g.nModels-1))%g.nModels, true))
+				}
+			}
+			if r.cen.mutex == 0 {
+				add(6, "advance_close", schedEv{kind: "advance", a: []int{1, 2, 2, 3}[g.rng.Intn(4)]})
+			}
 		case m.closes == 0:
 			b := 0
 			if !m.pingOK {
 				b = 1
 			}
 			add(1, "ping", schedEv{kind: "ping", a: m.id, b: b})
+			if g.blockPing && !m.pingBlock {
+				add(2, "ping_block", schedEv{kind: "ping", a: m.id, b: 2})
+				if left > 0 {
+					add(4, "ping_block_then_submit", schedEv{kind: "ping", a: m.id, b: 2}, g.submitFor(r, m.model, true))
+				}
+			}
 			if left > 0 && m.pingOK {
 				add(1, "pingfail_then_submit", schedEv{kind: "ping", a: m.id, b: 0}, g.submitFor(r, m.model, true))
 			}
@@ -357,6 +462,11 @@ func (g *schedGen) drainEvent(r *schedRun) (schedEv, bool) {
 		return schedEv{}, false
 	}
 	for _, m := range r.mocks {
+		if m.pinging {
+			return schedEv{kind: "pingdone", a: m.id, b: 1}, true
+		}
+	}
+	for _, m := range r.mocks {
 		if m.waiting {
 			ok := 1
 			if g.rng.Chance(1, 6) {
@@ -418,6 +528,13 @@ func (g *schedGen) finalStats(r *schedRun) {
 	if g.wantDrain {
 		r.stats["traces_with_drain_suffix"]++
 	}
+	r.stats[fmt.Sprintf("cfg_parallel_%d", g.np)]++
+	if g.gpumem != 0 {
+		r.stats["cfg_gpu1_small"]++
+	}
+	if g.closeMs != 0 {
+		r.stats["cfg_slow_close"]++
+	}
 	if r.stats["end_state_checked"] > 0 {
 		r.stats["traces_end_state_checked"]++
 	}
@@ -440,7 +557,7 @@ func schedRemove(evs []schedEv, i, j int) []schedEv {
 	removed := map[int]bool{} // request ids whose submit is dropped
 	q := 0
 	for k, e := range evs {
-		if e.kind == "submit" {
+		if e.kind == "submit" || e.kind == "submitr" {
 			if k >= i && k < j {
 				removed[q] = true
 			}
@@ -593,6 +710,7 @@ func schedCorpus(t *testing.T, testName string, corpus []struct{ name, script st
 		return
 	}
 	dir := t.TempDir()
+	t.Setenv("OLLAMA_MODELS", dir)
 	if _, err := schedModels(dir, true); err != nil {
 		t.Fatal(err)
 	}
